@@ -93,6 +93,20 @@ func (fr *frame) call(x ssa.Instruction, c *ssa.CallCommon, st *State) *Val {
 	if fv.Fn != nil {
 		return fr.callFunc(x, fv.Fn, args, nil, st, name)
 	}
+	// dynamic call through a value of a named function type of the repo: the
+	// contract of the type applies (every function stored under that type is
+	// checked against it separately)
+	if n, ok := types.Unalias(c.Value.Type()).(*types.Named); ok && n.Obj().Pkg() != nil {
+		key := n.Obj().Pkg().Path() + "::" + n.Obj().Name()
+		if fc, ok := fr.w.cons.Funcs[key]; ok {
+			sig := c.Signature()
+			var pn []string
+			for i := 0; i < sig.Params().Len(); i++ {
+				pn = append(pn, sig.Params().At(i).Name())
+			}
+			return fr.applyContract(x, sig, fc, pn, shortPath(n.Obj().Pkg().Path())+"."+n.Obj().Name(), args, st, name)
+		}
+	}
 	// dynamic call of an unknown function value
 	return fr.havocCall(x, c.Signature(), "dynamic call "+c.Value.Name(), st, name)
 }
@@ -164,7 +178,7 @@ func (fr *frame) callFunc(x ssa.Instruction, callee *ssa.Function, args, free []
 		}
 	}
 	switch {
-	case fc != nil && fc.Inline, anon && fc == nil && fr.w.inRepo(callee):
+	case fc != nil && fc.Inline, anon && fc == nil && fr.w.inRepo(callee), fc == nil && fr.w.inRepo(callee) && autoInlinable(callee, 0):
 		return fr.inline(x, callee, fc, args, free, st, name)
 	case fc != nil:
 		return fr.applyContract(x, callee.Signature, fc, paramNames(callee), relName(callee), args, st, name)
@@ -347,6 +361,28 @@ func (fr *frame) applyContract(x ssa.Instruction, sig *types.Signature, fc *Func
 	return res
 }
 
+// derefGuard: the pointers dereferenced by a location expression must be
+// non-nil for the location to exist (a nil-tolerant callee writes nothing then).
+func derefGuard(env *Env, e Expr) *Term {
+	var gs []*Term
+	var walk func(e Expr)
+	walk = func(e Expr) {
+		switch x := e.(type) {
+		case ESel:
+			walk(x.X)
+			if tv, err := env.Compile(x.X); err == nil && tv.T != nil && tv.T.Sort == SInt {
+				if _, ok := types.Unalias(tv.Ty).Underlying().(*types.Pointer); ok {
+					gs = append(gs, Not(Eq(tv.T, IntLit(0))))
+				}
+			}
+		case EIndex:
+			walk(x.X)
+		}
+	}
+	walk(e)
+	return And(gs...)
+}
+
 // havocAssign applies one assigns entry of a callee.
 func (fr *frame) havocAssign(a string, env *Env, h *Heap, st *State, x ssa.Instruction, cname string) *Heap {
 	vc := fr.vc
@@ -381,11 +417,35 @@ func (fr *frame) havocAssign(a string, env *Env, h *Heap, st *State, x ssa.Instr
 		el := types.Unalias(tv.Ty).Underlying().(*types.Slice).Elem()
 		key := w.elemHeap(el)
 		arr := SlArr(tv.T)
+		g := derefGuard(env, e)
 		if !fr.isDiscovery {
-			fr.frameCheck(key, arr, nil, st, x)
+			fr.frameCheckCond(key, arr, g, st, x)
 		}
 		_, inner, _ := w.heapSort[key].ArrParts()
-		return h.set(key, Store(h.get(key), arr, vc.fresh("Hc!"+key, inner)))
+		return h.set(key, Ite(g, Store(h.get(key), arr, vc.fresh("Hc!"+key, inner)), h.get(key)))
+	case strings.HasPrefix(a, "*"):
+		// *p : the cell p points to (pointer to a non-struct or external type)
+		e, err := parseExpr(a[1:])
+		if err != nil {
+			vc.errorf("assigns of %s: %v", cname, err)
+			return h
+		}
+		tv, err := env.Compile(e)
+		if err != nil || tv.T == nil {
+			vc.errorf("assigns of %s: %q: %v", cname, a, err)
+			return h
+		}
+		pt, ok := types.Unalias(tv.Ty).Underlying().(*types.Pointer)
+		if !ok {
+			vc.errorf("assigns of %s: %q is not a pointer", cname, a)
+			return h
+		}
+		key := w.cellHeap(pt.Elem())
+		if !fr.isDiscovery {
+			fr.frameCheck(key, tv.T, nil, st, x)
+		}
+		_, vs, _ := w.heapSort[key].ArrParts()
+		return h.set(key, Store(h.get(key), tv.T, vc.fresh("Hc!"+key, vs)))
 	default:
 		// x.f  or x.*
 		k := strings.LastIndex(a, ".")
@@ -433,12 +493,13 @@ func (fr *frame) havocAssign(a string, env *Env, h *Heap, st *State, x ssa.Instr
 		if len(keys) == 0 {
 			vc.errorf("assigns of %s: no field %q", cname, field)
 		}
+		g := And(derefGuard(env, e), Not(Eq(tv.T, IntLit(0))))
 		for _, key := range keys {
 			if !fr.isDiscovery {
-				fr.frameCheck(key, tv.T, nil, st, x)
+				fr.frameCheckCond(key, tv.T, g, st, x)
 			}
 			_, vs, _ := w.heapSort[key].ArrParts()
-			h = h.set(key, Store(h.get(key), tv.T, vc.fresh("Hc!"+key, vs)))
+			h = h.set(key, Ite(g, Store(h.get(key), tv.T, vc.fresh("Hc!"+key, vs)), h.get(key)))
 		}
 		return h
 	}
@@ -462,7 +523,13 @@ func (fr *frame) invoke(x ssa.Instruction, c *ssa.CallCommon, recv *Val, args []
 		cname = typeStr(it) + "." + c.Method.Name()
 	}
 	if !fr.isDiscovery {
-		fr.safety("nil", x, st, Not(Eq(IfTag(recv.T), IntLit(0))))
+		ok := Not(Eq(IfTag(recv.T), IntLit(0)))
+		if _, in := fr.w.isRepoNamed(it); in {
+			// implementations of repo interfaces are pointer types whose methods
+			// assume a non-nil receiver (thin default contract)
+			ok = And(ok, Not(Eq(IfRef(recv.T), IntLit(0))))
+		}
+		fr.safety("nil", x, st, ok)
 	}
 	fc, ok := fr.w.cons.Funcs[key]
 	if !ok {
@@ -617,7 +684,7 @@ func (fr *frame) frameCheckCond(key string, ref *Term, cond *Term, st *State, at
 	if fr.isDiscovery || fr.assignsOK == nil {
 		return
 	}
-	if strings.HasPrefix(key, "I:") || key == alKey || key == alAKey {
+	if strings.HasPrefix(key, "I:") || strings.HasPrefix(key, "L:") || key == alKey || key == alAKey {
 		return
 	}
 	ok := fr.assignsOK(key, ref, st)
@@ -686,4 +753,37 @@ func (fr *frame) runDefers(st *State, at ssa.Instruction) {
 			}
 		}
 	}
+}
+
+// autoInlinable: small loop-free repo functions without a contract are
+// inlined rather than havocked.
+func autoInlinable(fn *ssa.Function, depth int) bool {
+	if depth > 2 || len(fn.Blocks) == 0 || len(fn.Blocks) > 24 {
+		return false
+	}
+	n := 0
+	for _, b := range fn.Blocks {
+		for _, s := range b.Succs {
+			if backEdge(b, s) {
+				return false
+			}
+		}
+		for _, ins := range b.Instrs {
+			n++
+			switch c := ins.(type) {
+			case *ssa.Go, *ssa.Select, *ssa.Send, *ssa.Defer:
+				return false
+			case *ssa.Call:
+				if c.Call.IsInvoke() {
+					return false
+				}
+				if callee, ok := c.Call.Value.(*ssa.Function); ok {
+					if callee == fn {
+						return false
+					}
+				}
+			}
+		}
+	}
+	return n <= 100
 }
